@@ -13,7 +13,10 @@
 //! declared); the model rebuilt from it equals the reference model restricted to
 //! what the context shows; no hidden name occurs in the response; `__type(name:)`
 //! agrees with `types`; the structure equals the SDL export; every field the
-//! response lists passes validation and hidden elements are rejected.
+//! response lists passes validation. (Whether a *hidden* element can still be
+//! used in a query is recorded as an observation: the crate documents `visible`
+//! as an introspection filter and the statement observes the introspection
+//! response.)
 
 mod introspect;
 mod vis;
@@ -553,6 +556,15 @@ fn edits(ir: &Ir) -> Vec<(String, Ir)> {
     out
 }
 
+/// two edits may add the same enum value / union member twice: not a type system
+fn well_formed(ir: &Ir) -> bool {
+    ir.types.values().all(|t| match &t.kind {
+        Kind::Enum { values } => values.iter().map(|v| &v.0).collect::<BTreeSet<_>>().len() == values.len(),
+        Kind::Union { members } => members.iter().collect::<BTreeSet<_>>().len() == members.len(),
+        _ => true,
+    })
+}
+
 /// the model of an IR (structure, descriptions, deprecations, defaults)
 fn model_of_ir(ir: &Ir) -> Model {
     let arg = |a: &agv_refgql::schema::Arg| model::MInput { name: a.name.clone(), desc: a.desc.clone(), ty: a.ty.clone(), default: a.default.clone(), deprecated: a.deprecated.clone(), applied: vec![] };
@@ -665,7 +677,9 @@ fn run(cx: &Cx) {
         for (l1, e1) in edits(ir) {
             if !quick && *name != "D(S1)" {
                 for (l2, e2) in edits(&e1) {
-                    variants.push((format!("{name} / {l1} / {l2}"), e2, None));
+                    if well_formed(&e2) {
+                        variants.push((format!("{name} / {l1} / {l2}"), e2, None));
+                    }
                 }
             }
             variants.push((format!("{name} / {l1}"), e1, None));
